@@ -442,3 +442,50 @@ pub fn fam_pre_existing(b: &Base, out: &mut Vec<CaseSpec>) {
         out.push(with(b, "preexisting", "shorter".to_string(), |s| s.pre_existing = s.len / 2 + 1));
     }
 }
+
+/// ERROR packets with long multi-byte messages at every step (they only survive the receive buffer with blksize >= 512)
+pub fn fam_error_texts(b: &Base, out: &mut Vec<CaseSpec>) {
+    if b.spec.b < 512 {
+        return;
+    }
+    for j in [0usize, 1, b.peer_outs / 2, b.peer_outs.saturating_sub(1)] {
+        for kind in 1..=27u8 {
+            out.push(with(b, "errortext", format!("at#{j}:text{kind}"), |s| {
+                s.peer.error_at = Some(j);
+                s.peer.error_text = kind;
+            }));
+        }
+    }
+}
+
+/// k isolated faults: the first transmission of k different datagrams, each in a different window, is lost; every
+/// loss is repaired by one timeout, so never more than one receive attempt in a row fails
+pub fn fam_isolated(b: &Base, out: &mut Vec<CaseSpec>) {
+    let n = b.spec.nblocks();
+    let w = b.spec.w as u64;
+    let windows = (n + w - 1) / w;
+    if windows < 7 {
+        return;
+    }
+    let (ddir, adir) = if b.spec.role == Role::Send { (Dir::W2P, Dir::P2W) } else { (Dir::P2W, Dir::W2P) };
+    for k in [6u64, 7, 9] {
+        for what in ["data", "ack", "mixed"] {
+            if k > windows {
+                continue;
+            }
+            out.push(with(b, "isolated", format!("{k}x{what}"), |s| {
+                for i in 0..k {
+                    // last block of window i (its ACK) or first block of window i (its DATA)
+                    let first = i * w + 1;
+                    let last = ((i + 1) * w).min(n);
+                    let use_data = what == "data" || (what == "mixed" && i % 2 == 0);
+                    if use_data {
+                        s.rules.push(Rule::DropFirst { dir: ddir, is_data: true, abs: first, count: 1 });
+                    } else {
+                        s.rules.push(Rule::DropFirst { dir: adir, is_data: false, abs: last, count: 1 });
+                    }
+                }
+            }));
+        }
+    }
+}
